@@ -195,3 +195,79 @@ def check_c20(root, pid, tier, seed, replay):
 
 SPECIAL['C15'] = check_c15
 SPECIAL['C20'] = check_c20
+
+# ------------------------------------------------------------------------------------------------ C04
+def build_loomh(root):
+    hdir = os.path.join(root, 'harness', 'loomh')
+    lock_src = os.path.join(lsv.REPO, 'Cargo.lock')
+    if os.path.exists(lock_src):
+        import shutil
+        shutil.copy(lock_src, os.path.join(hdir, 'Cargo.lock'))
+    tgt = os.path.join(root, '.cache', 'loomh-target')
+    rc, out = lsv.sh(['cargo', 'build', '--release', '--offline', '--target-dir', tgt], 1800, cwd=hdir,
+                     env={'RUSTFLAGS': '--cfg loom --cfg lean_string_verif'})
+    return rc == 0, os.path.join(tgt, 'release', 'lsv-loomh'), out[-1500:]
+
+def check_c04(root, pid, tier, seed, replay):
+    res = lsv.Result(pid, tier, seed)
+    st = lsv.Build(root).run()
+    lsv.base_obligations(root, pid, res, st)
+    stats = lsv.new_stats()
+    ok, exe, msg = build_loomh(root)
+    res.oblige('build: real crate under --cfg loom --cfg lean_string_verif', ok, msg if not ok else '')
+    results = {}
+    if ok:
+        rc, out = lsv.sh([exe, 'list'], 60)
+        total = int(out.strip().splitlines()[-1])
+        env = {'LSV_LOOM_PREEMPTIONS': '2' if tier == 'quick' else '4'}
+        if replay:
+            m = re.search(r'program (\d+)', open(replay).read())
+            todo = [int(m.group(1))] if m else list(range(total))
+        else:
+            todo = list(range(total))
+        i = 0
+        while i < len(todo):
+            # run a contiguous chunk; an abort (non-unwinding panic inside loom) loses the rest of the chunk
+            j = i
+            while j + 1 < len(todo) and todo[j + 1] == todo[j] + 1 and j - i < 63:
+                j += 1
+            rc, out = lsv.sh([exe, 'run', str(todo[i]), str(todo[j] + 1)], 1800, env=env)
+            seen = -1
+            for line in out.splitlines():
+                p = line.split(' ', 4)
+                if len(p) >= 4 and p[0] == 'P':
+                    results[int(p[1])] = (p[2], p[3], p[4] if len(p) > 4 else '')
+                    seen = int(p[1])
+            if seen < todo[j]:
+                nxt = seen + 1 if seen >= todo[i] else todo[i]
+                results[nxt] = ('?', 'FAIL', 'process aborted (non-unwinding panic): ' + out.strip().splitlines()[-1][:200] if out.strip() else 'process aborted')
+                i = todo.index(nxt) + 1
+            else:
+                i = j + 1
+        execs = 0
+        for idx, (name, verdict, detail) in sorted(results.items()):
+            stats['cases'] += 1
+            if verdict == 'ok':
+                try: execs += int(detail.split()[0])
+                except Exception: pass
+            else:
+                stats['monitor_failures'] += 1
+                if len(res.violations) < 5:
+                    txt = ('# C04: the real crate under loom, program %d (%s): %s\n# replay: ./check C04 --replay <this file>   '
+                           '(threads A and B each own a handle to one shared 30-byte heap buffer; vN: 0 = both moved, 1 = main keeps a third handle, '
+                           '2 = B\'s handle truncated first)\nprogram %d\n' % (idx, name, detail, idx))
+                    rp = lsv.write_replay(root, pid, 'loom_%d' % idx, txt)
+                    res.violations.append(('loom program %d %s: %s' % (idx, name, detail[:200]), rp, True, 'loom'))
+        stats['steps'] = execs
+        for n in list(results)[:3]:
+            pass
+        res.cov['loom_programs'] = len(results)
+        res.cov['loom_executions'] = execs
+        res.cov['loom_preemption_bound'] = int(env['LSV_LOOM_PREEMPTIONS'])
+        res.samples = [['program %d: %s -> %s %s' % (k, v[0], v[1], v[2][:40]) for k, v in sorted(results.items())[:6]]]
+        stats['nontrivial'] = set(v[0] for v in results.values())
+    lsv.finish_without_search(root, pid, res, stats)
+    res.stats = stats
+    return lsv.emit(root, res, st)
+
+SPECIAL['C04'] = check_c04
